@@ -587,6 +587,15 @@ class RunBreak(Logged):
                 yield ("ran-again", v)
 
 
+class RunBreakFalse(RunBreak):
+    # the marker's presence counts, not its value (FillInto's docstring)
+    _can_break_flow = False
+
+
+class RunBreakNone(RunBreak):
+    _can_break_flow = None
+
+
 class RunPlain(Logged):
     def run(self, flow):
         for v in flow:
@@ -730,6 +739,7 @@ def make_el(kind):
         return genfun, lambda: log
     cls = {"callobj": CallObj, "srcobj": SrcObj, "custom": Custom, "fc": FC,
            "fc_noreset": FCNoReset, "fr": FR, "onlyfill": OnlyFill, "run_break": RunBreak,
+           "run_break_false": RunBreakFalse, "run_break_none": RunBreakNone,
            "run_plain": RunPlain, "fill_into": FI, "run_and_fc": RunAndFC,
            "fcr": FCR, "run_and_call": RunAndCall, "fi_call_run": FICallRun,
            "call_runbreak": CallRunBreak, "noncallable": NonCallable,
@@ -747,7 +757,7 @@ KINDS = ["callobj", "srcobj", "function", "genfunction", "list", "range", "custo
          "fcr", "run_and_call", "fi_call_run", "call_runbreak",
          "noncallable", "none", "int", "str",
          "custom_len0", "custom_boolfalse", "run_plain_len0", "fcr_boolfalse", "callobj_len0",
-         "fc_len0", "srcobj_boolfalse", "fill_into_len0"]
+         "fc_len0", "srcobj_boolfalse", "fill_into_len0", "run_break_false", "run_break_none"]
 ABSENT = "<absent>"
 NAMES = {
     "Call": [ABSENT, "__call__", "my_call", "fill", "attr5", "nope"],
